@@ -71,7 +71,9 @@ impl<'a> D<'a> {
 }
 
 pub fn lab(d: &mut D, allow_zero: bool, allow_reuse: bool) -> Lab {
-    match d.pick(8) {
+    match d.pick(10) {
+        8 => Lab::Six(SPECIAL6[d.pick(SPECIAL6.len())]),
+        9 => Lab::Three(SPECIAL3[d.pick(SPECIAL3.len())]),
         0 | 1 => Lab::Six(ALPHA6[d.pick(3)]),
         2 | 3 => Lab::Three(ALPHA3[d.pick(3)]),
         4 => {
